@@ -90,7 +90,7 @@ ASSUMPTIONS = [
     'finalisers fired from other threads are not explored',
     'getVarlist/audit_meta/updatemeta are not in the statement\'s list of '
     'queries and are not judged']
-BUDGET = {'quick': dict(examples=2720, max_s=300, shrink_cap=300),
+BUDGET = {'quick': dict(examples=4000, max_s=300, shrink_cap=300),
           'thorough': dict(examples=100000, max_s=3000, shrink_cap=600)}
 
 VOLATILE = O.VOLATILE
